@@ -268,7 +268,7 @@ func Main(c *Check, tier string, rest []string) int {
 			go func(i int) {
 				outf := filepath.Join(dir, fmt.Sprintf("p%d.json", i))
 				cmd := exec.Command(os.Args[0], c.ID, tier, "--shard", fmt.Sprintf("%d/%d", i, workers), "--out", outf)
-				cmd.Env = append(os.Environ(), "GOMAXPROCS=2")
+				cmd.Env = append(os.Environ(), "GOMAXPROCS=1", "GOGC=800")
 				ob, err := cmd.CombinedOutput()
 				ch <- res{i, err, string(ob)}
 			}(i)
